@@ -6,7 +6,9 @@ package c20
 import (
 	"bytes"
 	"encoding/binary"
+	"github.com/plgd-dev/go-coap/v3/net/blockwise"
 	"sync/atomic"
+	"time"
 
 	"github.com/plgd-dev/go-coap/v3/message"
 	"github.com/plgd-dev/go-coap/v3/message/codes"
@@ -146,6 +148,9 @@ func Run(out string) {
 	for _, v := range wvals {
 		udpWire(w, v, wcodes)
 		tcpWire(w, v, wcodes)
+		if v%4 == 2 || v == 8 || v == 16 || v == 0 {
+			udpWireBW(w, v, []int{68, 69, 132, 160})
+		}
 	}
 }
 
@@ -203,6 +208,72 @@ func udpWire(w *rec.W, v uint32, wcodes []int) {
 						r.Acks++
 					} else {
 						r.Responses += 100 // unexpected empty message: counted as a foreign emission
+					}
+					continue
+				}
+				r.Responses++
+				r.RespCode = d.Code
+				r.RespTokOK = bytes.Equal(d.Token, tok)
+			}
+			w.Put(r)
+		}
+	}
+}
+
+// udpWireBW: the request body arrives block-wise (two Block1 blocks, No-Response on both); the handler answers the reassembled
+// request. What the last block's exchange puts on the wire is judged like the plain case.
+func udpWireBW(w *rec.W, v uint32, wcodes []int) {
+	var runs atomic.Int64
+	var refused atomic.Bool
+	u := conns.NewUDP(func(cfg *udpclient.Config) {
+		cfg.BlockwiseEnable = true
+		cfg.BlockwiseSZX = blockwise.SZX16
+		cfg.BlockwiseTransferTimeout = time.Second
+		cfg.Handler = func(rw *responsewriter.ResponseWriter[*udpclient.Conn], r *pool.Message) {
+			runs.Add(1)
+			body, _ := r.ReadBody()
+			if len(body) != 17 {
+				return
+			}
+			err := rw.SetResponse(codes.Code(body[0]), message.TextPlain, bytes.NewReader([]byte("resp")))
+			refused.Store(err != nil)
+		}
+	})
+	defer u.Close()
+	mid := int32(300)
+	for _, con := range []bool{true, false} {
+		for _, c := range wcodes {
+			typ := message.NonConfirmable
+			if con {
+				typ = message.Confirmable
+			}
+			mid += 2
+			tok := []byte{byte(mid >> 8), byte(mid), 0x5c}
+			opts := func(blk byte) message.Options {
+				o := message.Options{{ID: message.URIPath, Value: []byte("a")}, {ID: message.Block1, Value: []byte{blk}}, {ID: message.NoResponse, Value: encUint(v)}}
+				return o
+			}
+			first := append([]byte{byte(c)}, bytes.Repeat([]byte{7}, 15)...)
+			runs.Store(0)
+			refused.Store(false)
+			if err := u.Inject(memnet.Build(typ, int(codes.POST), mid, tok, opts(0x08), first)); err != nil { // NUM 0, M, SZX 16
+				rec.Die("c20 udp bw inject: %v", err)
+			}
+			from := u.Sess.OutLen()
+			if err := u.Inject(memnet.Build(typ, int(codes.POST), mid+1, tok, opts(0x10), []byte{9})); err != nil { // NUM 1, last
+				rec.Die("c20 udp bw inject: %v", err)
+			}
+			r := wire{Op: "wire", Transport: "udp-blockwise", Con: con, VHi: int(v >> 16), VLo: int(v & 0xffff), Code: c, HandlerRuns: int(runs.Load()), SetRefused: refused.Load(), RespCode: -1}
+			for _, raw := range u.Sess.Out(from) {
+				d, err := memnet.Parse(raw)
+				if err != nil {
+					rec.Die("c20: cannot parse emitted datagram: %v", err)
+				}
+				if d.Code == int(codes.Empty) && len(d.Token) == 0 && len(d.Opts) == 0 {
+					if d.Type == message.Acknowledgement && d.MID == mid+1 {
+						r.Acks++
+					} else {
+						r.Responses += 100
 					}
 					continue
 				}
